@@ -177,6 +177,18 @@ def main():
     pid, tier = sys.argv[1], sys.argv[2]
     seed = int(os.environ.get("VERIF_SEED", "0") or 0)
     t0 = time.time()
+    # last line of defence against a stream of the machinery itself that does not return (every stream has its own
+    # watchdogs; SIGALRM is theirs, so this one is a thread): a check that runs this long gives no verdict, exit 2
+    import threading
+    budget = int(os.environ.get("VERIF_BUDGET", "5400" if tier == "thorough" else "1800"))
+
+    def give_up():
+        # (file descriptor 1 directly: sys.stdout may be a capture object of a stream at this moment)
+        os.write(1, "check {} {}: the verification machinery did not finish within {} s (no verdict)\n".format(pid, tier, budget).encode())
+        os._exit(2)
+    timer = threading.Timer(budget, give_up)
+    timer.daemon = True
+    timer.start()
     try:
         return run_check(pid, tier, seed, t0)
     except subprocess.TimeoutExpired as e:
